@@ -1,12 +1,29 @@
-(* C08 — property theorems (statements only; proofs in Proofs/FastIndexer*.v) *)
+(* C08 — "Log index lists exactly the messages of a sequential scan of the file".
+   Property theorems only; proofs in Proofs/FastIndexer*.v.
+
+   MODEL  fi_generate READ MAX fi_cur ptime file W  = fast_generate_index(file, num_threads=W) of the working tree
+          (Models/FastIndexerM.v; fi_cur = the repaired code, fi_legacy = the code before the six repairs).
+   SPEC   fi_spec ptime file = entries (offset, type, whole-second P1 time or none, ordinal) of the frames that a
+          left-to-right scan of the file accepts with Base judge_fe false false MAX_EXPECTED_SIZE_BYTES (sync,
+          complete header, payload_size <= _MAX_EXPECTED_SIZE_BYTES, whole message present, CRC).  Unlike C04's
+          decoder the indexer does NOT test the reserved bytes (check_reserved = false) — the C08 text does not
+          list them.  The scan is end-of-file aware (a header whose payload runs past the end of the file is not a
+          message and the scan goes on one byte further, as MixedLogReader does); [spec_extends_stream_scan]
+          relates it to Base's streaming [scan].
+   ptime  the per-class payload decoding (cls().unpack + get_p1_time()) is an arbitrary function: every theorem
+          holds for all of them.
+   All theorems are for every file, every worker count >= 1 and every even READ >= 2, 24 <= MAX <= READ; the
+   constants of the working tree are an instance ([generated_constants_ok]). *)
 From Coq Require Import NArith List.
-From FEC Require Import Generated.FEConsts Models.FastIndexerM Proofs.FastIndexerListP Proofs.FastIndexerArithP.
+From FEC Require Import Generated.FEConsts Base.Scan Base.FEFormat Models.FastIndexerM
+  Proofs.FastIndexerListP Proofs.FastIndexerArithP Proofs.FastIndexerJudgeP Proofs.FastIndexerSpecP Proofs.FastIndexerLegacyP.
+Import ListNotations.
 Open Scope N_scope.
 
-(* blocks_cover: for every even READ >= 2 and 24 <= MAX <= READ, every file size and every offset o at which a
-   24-byte header still fits, exactly one block of the block table has o in its candidate range
-   [k*READ, k*READ + 2*word_count), and a message of at most MAX bytes starting at o lies wholly inside the
-   bytes that block reads. *)
+(* ---- block arithmetic --------------------------------------------------------------------------------------- *)
+(* every offset o at which a 24-byte header still fits lies in the candidate range [k*READ, k*READ + 2*word_count)
+   of exactly one block, and a message of at most MAX bytes starting at o lies wholly inside the bytes that
+   block reads *)
 Theorem blocks_cover : forall READ MAX : N,
   2 <= READ -> READ mod 2 = 0 -> 24 <= MAX -> MAX <= READ ->
   forall size o, o + 24 <= size ->
@@ -16,8 +33,105 @@ Theorem blocks_cover : forall READ MAX : N,
 Proof. exact FastIndexerArithP.blocks_cover. Qed.
 Print Assumptions blocks_cover.
 
-(* the constants of the working tree meet the hypotheses *)
 Example generated_constants_ok :
   2 <= READ_SIZE_BYTES /\ READ_SIZE_BYTES mod 2 = 0 /\ 24 <= MAX_FE_MSG_SIZE_BYTES /\ MAX_FE_MSG_SIZE_BYTES <= READ_SIZE_BYTES.
 Proof. exact FastIndexerArithP.generated_constants_ok. Qed.
 Print Assumptions generated_constants_ok.
+
+(* ---- the index is the sequential scan, for every worker count ------------------------------------------------ *)
+(* precondition of the property: every message (every valid candidate) of the file is at most MAX bytes *)
+(*   fi_small_msgs MAX file := forall j n, fi_judge (skipn j file) = Accept n -> N.of_nat n <= MAX *)
+
+Theorem index_is_scan_for_every_worker_count : forall READ MAX : N,
+  2 <= READ -> READ mod 2 = 0 -> 24 <= MAX -> MAX <= READ ->
+  forall (ptime : N -> N -> list N -> option (N * N)) (file : list N) (W : N),
+  1 <= W -> fi_small_msgs MAX file ->
+  fi_generate READ MAX fi_cur ptime file W = FOk (fi_spec ptime file).
+Proof. exact FastIndexerSpecP.index_is_scan. Qed.
+Print Assumptions index_is_scan_for_every_worker_count.
+
+Theorem one_worker_is_scan : forall READ MAX : N,
+  2 <= READ -> READ mod 2 = 0 -> 24 <= MAX -> MAX <= READ ->
+  forall ptime file, fi_small_msgs MAX file ->
+  fi_generate READ MAX fi_cur ptime file 1 = FOk (fi_spec ptime file).
+Proof. exact FastIndexerSpecP.one_worker_is_scan. Qed.
+Print Assumptions one_worker_is_scan.
+
+Theorem index_independent_of_workers : forall READ MAX : N,
+  2 <= READ -> READ mod 2 = 0 -> 24 <= MAX -> MAX <= READ ->
+  forall ptime file W1 W2, 1 <= W1 -> 1 <= W2 -> fi_small_msgs MAX file ->
+  fi_generate READ MAX fi_cur ptime file W1 = fi_generate READ MAX fi_cur ptime file W2.
+Proof. exact FastIndexerSpecP.index_independent_of_workers. Qed.
+Print Assumptions index_independent_of_workers.
+
+(* the hypotheses are met by a non-trivial input: the #15 file (wrapper across a block boundary, CRC-valid
+   candidate running past it, real message inside) satisfies the precondition, and the index has 2 entries *)
+Example index_is_scan_instance :
+  fi_small_msgs 48 wit_overlap /\
+  fi_generate 64 48 fi_cur no_time wit_overlap 1 = FOk (fi_spec no_time wit_overlap) /\
+  fi_generate 64 48 fi_cur no_time wit_overlap 2 = FOk (fi_spec no_time wit_overlap) /\
+  fi_generate 64 48 fi_cur no_time wit_overlap 3 = FOk (fi_spec no_time wit_overlap) /\
+  fi_generate 64 48 fi_cur no_time wit_overlap 16 = FOk (fi_spec no_time wit_overlap) /\
+  length (fi_spec no_time wit_overlap) = 2%nat.
+Proof. exact (conj wit_overlap_small cur_overlap_ok). Qed.
+Print Assumptions index_is_scan_instance.
+
+(* ---- unconditional: whatever the file contains ------------------------------------------------------------------ *)
+Theorem index_entries_crc_valid : forall READ MAX : N,
+  2 <= READ -> READ mod 2 = 0 -> 24 <= MAX -> MAX <= READ ->
+  forall ptime file W es, 1 <= W -> fi_generate READ MAX fi_cur ptime file W = FOk es ->
+  forall e, In e es -> exists n, fi_judge (skipn (N.to_nat (e_off e)) file) = Accept n.
+Proof. exact FastIndexerSpecP.entries_valid. Qed.
+Print Assumptions index_entries_crc_valid.
+
+Theorem index_never_raises : forall READ MAX : N,
+  2 <= READ -> READ mod 2 = 0 -> 24 <= MAX -> MAX <= READ ->
+  forall ptime file W, 1 <= W -> exists es, fi_generate READ MAX fi_cur ptime file W = FOk es.
+Proof. exact FastIndexerSpecP.never_raises. Qed.
+Print Assumptions index_never_raises.
+
+(* ---- the SPEC that is extracted and run against the code is the SPEC; relation to Base's streaming scan ------- *)
+Theorem spec_executable_is_spec : forall ptime file, fi_spec_x ptime file = fi_spec ptime file.
+Proof. exact FastIndexerSpecP.spec_x_is_spec. Qed.
+Print Assumptions spec_executable_is_spec.
+
+Theorem spec_extends_stream_scan : forall file fs off' r,
+  scan fi_judge 0 file = (fs, (off', r)) ->
+  exists rest, fi_spec_frames file = fs ++ rest /\ ((length r < HEADER_SIZE)%nat -> rest = []).
+Proof. exact FastIndexerSpecP.spec_extends_stream_scan. Qed.
+Print Assumptions spec_extends_stream_scan.
+
+(* ---- the code before the repairs violated each part (witnesses replayed on the code: corpus/C08) ---------------- *)
+(* DESIGN 21 #15: although every valid candidate is <= MAX, one worker gives the scan and two workers do not *)
+Theorem index_independent_legacy_refuted :
+  fi_small_msgs 48 wit_overlap /\
+  fi_generate 64 48 fi_legacy no_time wit_overlap 1 = FOk (fi_spec no_time wit_overlap) /\
+  fi_generate 64 48 fi_legacy no_time wit_overlap 2 <> fi_generate 64 48 fi_legacy no_time wit_overlap 1.
+Proof. exact (conj wit_overlap_small legacy_worker_dependent). Qed.
+Print Assumptions index_independent_legacy_refuted.
+
+(* DESIGN 21 #17: an entry whose payload is not in the file *)
+Theorem index_entries_crc_valid_legacy_refuted :
+  (exists e, fi_generate 64 48 fi_legacy no_time wit_trunc 1 = FOk [e] /\ e_off e = 0) /\
+  (forall n, fi_judge (skipn 0 wit_trunc) <> Accept n) /\
+  fi_generate 64 48 fi_cur no_time wit_trunc 1 = FOk [].
+Proof. exact legacy_indexes_truncated. Qed.
+Print Assumptions index_entries_crc_valid_legacy_refuted.
+
+(* 1-byte file (also with the generated constants); DESIGN 21 #11: whole seconds >= 2^32 *)
+Theorem index_never_raises_legacy_refuted :
+  fi_generate 64 48 fi_legacy no_time [0] 1 = FRaise ErrNegativeDim /\
+  fi_generate READ_SIZE_BYTES MAX_FE_MSG_SIZE_BYTES fi_legacy no_time [0] 1 = FRaise ErrNegativeDim /\
+  fi_generate 64 48 fi_legacy big_time wit_msg 1 = FRaise ErrTimeOverflow /\
+  fi_generate 64 48 fi_cur no_time [0] 1 = FOk [] /\
+  (exists e, fi_generate 64 48 fi_cur big_time wit_msg 1 = FOk [e] /\ e_time e = None /\ e_off e = 0).
+Proof. exact legacy_raises. Qed.
+Print Assumptions index_never_raises_legacy_refuted.
+
+(* the old code took the P1 time of a short-payload message from the bytes after it *)
+Theorem index_time_legacy_refuted :
+  (exists e, fi_generate 64 48 fi_legacy len_time wit_short 1 = FOk [e] /\ e_time e = Some 77) /\
+  (exists e, fi_generate 64 48 fi_cur len_time wit_short 1 = FOk [e] /\ e_time e = None) /\
+  (exists e, fi_spec len_time wit_short = [e] /\ e_time e = None).
+Proof. exact legacy_time_from_following_bytes. Qed.
+Print Assumptions index_time_legacy_refuted.
